@@ -335,6 +335,8 @@ func loadByExt(rt reflect.Type, dir string, texts map[string]string) (map[string
 			must[ef[0]] = run(rt, func(t any) error { conf.MustLoad(p, t); return nil })
 		}
 	}
+	// a file that does not exist: os.ReadFile's error, whatever the extension
+	res["missing"] = run(rt, func(t any) error { return conf.Load(filepath.Join(dir, "nope.json"), t) })
 	return res, must, nil
 }
 
